@@ -813,7 +813,7 @@ Theorem assertion_roundtrip : forall h body sig,
   norm_headers h = true -> h <> [] ->
   forallb no_nl (format_headers h) = true -> utf8_valid (join_lines (format_headers h)) = true ->
   cut_first_nlnl sig = None -> has_prefix [NL] sig = false ->
-  decode_parts (encode_assertion h body sig) = Ok (mkParts h body sig).
+  decode_parts (encode_assertion h body sig) = Ok (mkParts h body sig (content_of (join_lines (format_headers h)) body)).
 Proof.
   intros h body sig Hn Hne Hl Hu Hs1 Hs2.
   pose proof (roundtrip_bytes h Hn Hne Hl Hu) as Hrt.
@@ -830,6 +830,15 @@ Proof.
   unfold content_of. destruct body as [|b0 body'].
   - cbn [is_nil_b]. rewrite Hc. rewrite Hrt. reflexivity.
   - cbn [is_nil_b]. rewrite (cut_first_app_sep _ (b0 :: body') Hc Hlast). rewrite Hrt. reflexivity.
+Qed.
+
+Theorem reencode_identity : forall h body sig,
+  norm_headers h = true -> h <> [] ->
+  forallb no_nl (format_headers h) = true -> utf8_valid (join_lines (format_headers h)) = true ->
+  cut_first_nlnl sig = None -> has_prefix [NL] sig = false ->
+  exists p, decode_parts (encode_assertion h body sig) = Ok p /\ encode (p_content p) (p_sig p) = encode_assertion h body sig.
+Proof.
+  intros h body sig Hn Hne Hl Hu Hs1 Hs2. eexists. split; [apply assertion_roundtrip; assumption|]. reflexivity.
 Qed.
 
 (* ------------------------------------------------------------------ bufio.Peek over any chunking of the reader *)
